@@ -27,6 +27,12 @@ package webrtc
 //       exchange as the answerer, make the peer `unclassified` until its next completion as
 //       offerer; only (A) and (B) apply meanwhile.  A fire the harness cannot explain is only
 //       counted.
+//   (C') independent of that bookkeeping, at the same quiet points: if a live transceiver of the
+//       peer is not associated with an m= section of its current local description, or it has a
+//       data channel but no application section (W3C "check if negotiation is needed" steps 3 and
+//       5.2, read from public state), and nothing fired since the peer's last completion, that is
+//       a violation.  This covers a need that survives an exchange the peer completed as ANSWERER
+//       (the offer had no section for it); a quarter of the cases start with that scenario.
 // Fires on a peer that received a call while its queue was still busy (possible only for the
 // parked answerer, or inside a whole-exchange op) are exempt from (A) and (B) until that peer's
 // queue is next seen quiet: the statement promises nothing when its precondition does not hold.
@@ -83,6 +89,7 @@ type vfC04Peer struct {
 	lastChange     string
 	completions    []int64 // clock values just before each completing call
 	withdrawals    []int64 // clock values just before each successful RemoveTrack
+	lastAsAnswerer bool    // the most recent completion was as the answerer
 	remoteApplied  bool
 	parked         bool // queued work waits for a transport that needs the peer's next signalling step
 	nTracks, nAdds int
@@ -196,6 +203,31 @@ func vfC04Run(v *vfT, c vfC04Case) {
 		d := p.pc.CurrentLocalDescription()
 		return d != nil && strings.Contains(d.SDP, "m=application")
 	}
+	// unassociated re-implements steps 3 and 5.2 of W3C "check if negotiation is needed" over public
+	// state: a data channel exists but the current local description has no application section, or
+	// a live transceiver is not associated with an m= section of the current local description.
+	unassociated := func(p *vfC04Peer) string {
+		mids := map[string]bool{}
+		if d := p.pc.CurrentLocalDescription(); d != nil {
+			for _, l := range strings.Split(d.SDP, "\n") {
+				if strings.HasPrefix(l, "a=mid:") {
+					mids[strings.TrimSpace(strings.TrimPrefix(l, "a=mid:"))] = true
+				}
+			}
+		}
+		for _, t := range p.pc.GetTransceivers() {
+			if t.Direction() == RTPTransceiverDirectionInactive {
+				continue // possibly stopped
+			}
+			if m := t.Mid(); m == "" || !mids[m] {
+				return "transceiver"
+			}
+		}
+		if p.nDC > 0 && !hasApp(p) {
+			return "data-channel"
+		}
+		return ""
+	}
 	change := func(p *vfC04Peer, what string) {
 		p.changeSeq++
 		p.lastChange = what
@@ -279,6 +311,7 @@ func vfC04Run(v *vfT, c vfC04Case) {
 				R.appliedSeq = R.createdSeq
 				R.parked = true // startRTP may wait in startSCTP until the offerer starts its side
 				R.completions = append(R.completions, at)
+				R.lastAsAnswerer = true
 				if R.changeSeq > R.resolvedSeq {
 					// the answer may or may not have absorbed R's pending changes
 					R.unclassified, R.unclSeq = true, R.changeSeq
@@ -290,6 +323,7 @@ func vfC04Run(v *vfT, c vfC04Case) {
 				I.remoteApplied = true
 				I.parked, R.parked = false, false
 				I.completions = append(I.completions, at)
+				I.lastAsAnswerer = false
 				if I.appliedSeq > I.resolvedSeq {
 					I.resolvedSeq = I.appliedSeq
 				}
@@ -502,6 +536,21 @@ func vfC04Run(v *vfT, c vfC04Case) {
 				}
 				fired := q.firesSince(q.lastCompletion())
 				needed := q.changeSeq > q.resolvedSeq
+				if what := unassociated(q); what != "" {
+					role := "before-first-completion"
+					if len(q.completions) > 0 {
+						role = "after-offerer-completion"
+						if q.lastAsAnswerer {
+							role = "after-answerer-completion"
+						}
+					}
+					if fired == 0 {
+						v.Violation("C04/not-fired-when-stable/unassociated-"+what+"/"+role,
+							"after op %d (%s %s): %s is stable and its queue is drained; a %s of %s is not part of its current local description, so negotiation is (still) needed, but negotiationneeded has not been invoked since its last completed exchange (%s)",
+							i, op.K, p.name, q.name, what, q.name, role)
+					}
+					v.Label("quiet-point:unassociated-" + what + "-and-fired:" + role)
+				}
 				switch {
 				case q.unclassified:
 					v.Label("quiet-point:unclassified")
@@ -554,6 +603,22 @@ func TestVerif_C04_Histories(t *testing.T) {
 		n := rapid.IntRange(1, maxLen).Draw(v.R, "n")
 		kinds := []string{"addTrack", "addTrack", "removeTrack", "addTr", "addTr", "addDC", "step", "step", "step", "step", "step", "step", "step", "step", "exchange", "exchange"}
 		var c vfC04Case
+		if rapid.IntRange(0, 3).Draw(v.R, "template") == 0 {
+			// a need that the peer's offer cannot satisfy: X adds a transceiver/track of one kind, Y
+			// offers only a data channel or the other kind, X answers; X must fire again once stable
+			x := rapid.IntRange(0, 1).Draw(v.R, "tx")
+			kind := rapid.IntRange(0, 1).Draw(v.R, "tkind")
+			c.Ops = append(c.Ops, vfC04Op{K: rapid.SampledFrom([]string{"addTr", "addTrack"}).Draw(v.R, "tk"), X: x, A: kind + 2*rapid.IntRange(0, 1).Draw(v.R, "tdir")})
+			switch rapid.IntRange(0, 2).Draw(v.R, "ty") {
+			case 0:
+				c.Ops = append(c.Ops, vfC04Op{K: "addDC", X: 1 - x})
+			case 1:
+				c.Ops = append(c.Ops, vfC04Op{K: "addTr", X: 1 - x, A: 1 - kind})
+			default:
+				c.Ops = append(c.Ops, vfC04Op{K: "addTrack", X: 1 - x, A: 1 - kind})
+			}
+			c.Ops = append(c.Ops, vfC04Op{K: "exchange", X: 1 - x})
+		}
 		for i := 0; i < n; i++ {
 			op := vfC04Op{K: rapid.SampledFrom(kinds).Draw(v.R, "k"), X: rapid.IntRange(0, 1).Draw(v.R, "x"), A: rapid.IntRange(0, 3).Draw(v.R, "a")}
 			if i == 0 && rapid.IntRange(0, 4).Draw(v.R, "mediaFirst") != 0 {
